@@ -56,10 +56,9 @@ theorem writeMap_accepting (c : Chan) (n beg : Nat) (c' : Chan) (h : writeMap c 
 theorem cv_wmap_fail (s : Sys) (n : Nat) (h : ∀ b, (step s (.wmap n)).2 ≠ .wok b) : (step s (.wmap n)).1 = s :=
   wmap_not_ok s n h
 
-theorem cv_wmap_ok {s : Sys} (h : Ok s) (n b : Nat) (hp : (cv s).pending = false) (ho : (step s (.wmap n)).2 = .wok b) :
+theorem cv_wmap_ok {s : Sys} (h : Ok s) (n b : Nat) (ho : (step s (.wmap n)).2 = .wok b) :
     Ok (step s (.wmap n)).1 ∧ cv (step s (.wmap n)).1 = { pending := true, wlen := n, total := (cv s).total, nrd := (cv s).nrd, m0 := (cv s).m0, m1 := (cv s).m1, i0 := (cv s).i0, i1 := (cv s).i1, l0 := (cv s).l0, l1 := (cv s).l1, acc := (cv s).acc } := by
-  replace hp : s.pending = false := hp
-  have hwf : (Op.wmap n).wf s = true := by simp [Op.wf, hp]
+  have hwf : (Op.wmap n).wf s = true := rfl
   refine ⟨h.step _ hwf, ?_⟩
   obtain ⟨cap, g, hr⟩ := h
   obtain ⟨a1, a2, a3, a4, a5, a6⟩ := wmap_ok hr n b hwf ho
